@@ -273,10 +273,13 @@ def trace_stats(paths, is_nontrivial=None, max_samples=3):
 
 
 def write_evidence(prop, tier, seed, coverage, assumptions, wall, violations):
-    os.makedirs(os.path.join(VERIF, "evidence"), exist_ok=True)
+    # evidence/ describes runs against /repo itself; a run against another tree (seeded-change evaluation with
+    # VERIF_REPO) is written elsewhere so that it never replaces it
+    evdir = os.path.join(VERIF, "evidence" if os.path.realpath(REPO) == "/repo" else "evidence_other")
+    os.makedirs(evdir, exist_ok=True)
     doc = dict(property_id=prop, tier=tier, seed=seed, level="model_checking", coverage=coverage,
                assumptions=assumptions, wall_s=round(wall, 2), violations=violations)
-    with open(os.path.join(VERIF, "evidence", prop + ".json"), "w") as f:
+    with open(os.path.join(evdir, prop + ".json"), "w") as f:
         json.dump(doc, f, indent=1, sort_keys=True)
         f.write("\n")
 
